@@ -667,6 +667,8 @@ from mlmverif.selfcheck import B, OK  # noqa: E402
 
 _F = 'utils/iter_utils.py'
 VARIANTS = [
+    OK('num-outputs-through-a-local', 'chainables/tree_fns.py',
+       "    if isinstance(self.output_keys, tuple):\n      return len(self.output_keys)\n", "    keys = self.output_keys\n    if isinstance(keys, tuple):\n      return len(keys)\n"),
     B('num-outputs-without-skipped-keys', 'chainables/tree_fns.py',
       "    if isinstance(self.output_keys, tuple):\n      return len(self.output_keys)\n", "    if isinstance(self.output_keys, tuple):\n      return sum(1 for key in self.output_keys if key != tree.Key.SKIP)\n", 'R-C19-11'),
     B('debug-line-walks-the-concatenated-columns', 'utils/iter_utils.py',
